@@ -67,11 +67,37 @@ fn main() {
                 eprintln!("pppsim: no check for property {}", rp.scenario.check);
                 std::process::exit(2);
             });
-            let mut st = Stats {
-                trace: Some(Vec::new()),
-                ..Default::default()
+            // a recorded hang is replayed under the same 60 s watchdog that found it
+            let (tx, rx) = std::sync::mpsc::channel();
+            let scenario = rp.scenario.clone();
+            let id = rp.scenario.check.clone();
+            std::thread::spawn(move || {
+                let check = checks::by_id(&id).expect("check");
+                let mut st = Stats {
+                    trace: Some(Vec::new()),
+                    ..Default::default()
+                };
+                let vs = check.execute(&scenario, &mut st);
+                let _ = tx.send((vs, st));
+            });
+            let (vs, st) = match rx.recv_timeout(std::time::Duration::from_secs(62)) {
+                Ok(x) => x,
+                Err(_) => {
+                    if !quiet {
+                        println!("replay of {}: the run did not finish within 60 s of wall clock", args[2]);
+                    }
+                    if rp.clause == "hang" {
+                        println!(
+                            "VIOLATION property={} replay={}",
+                            rp.scenario.check, args[2]
+                        );
+                        std::process::exit(1);
+                    }
+                    eprintln!("pppsim: replay hangs although the recorded clause is {}", rp.clause);
+                    std::process::exit(2);
+                }
             };
-            let vs = check.execute(&rp.scenario, &mut st);
+            let _ = &check;
             if !quiet {
                 println!(
                     "replay of {} ({} clause {}), profile {}",
